@@ -25,11 +25,11 @@ def plan(tier, seed):
     d0, d = DEPTH[tier]
     for ci, c in enumerate(CFGS[tier]):
         for p in range(PARTS[tier]):
-            shards.append(dict(kind='bfs', time_opts=c, part=p, nparts=PARTS[tier], d0=d0, depth=d, budget=BUDGET[tier]))
+            shards.append(dict(kind='bfs', time_opts=c, part=p, nparts=PARTS[tier], d0=d0, depth=d, budget=BUDGET[tier], defer=bool(ci == 0 and p % 2)))
     n, length = WALKS[tier]
     nshard = 2 if tier == 'quick' else 16
     for i in range(nshard):
-        shards.append(dict(kind='walk', seed=seed * 1000 + i, n=n // nshard, length=length, time_opts=CFGS['thorough'][i % 3]))
+        shards.append(dict(kind='walk', seed=seed * 1000 + i, n=n // nshard, length=length, time_opts=CFGS['thorough'][i % 3], defer=bool(i % 2)))
     return shards
 
 
@@ -62,6 +62,8 @@ def continuation(r, stats):
 def run_shard(sh):
     res = dict(evaluations=0, counters={}, maxima={}, sets={}, distinct=[], samples=[], violations=[])
     cfg = dict(time_opts=sh['time_opts'])
+    if sh.get('defer'):
+        cfg['defer_close'] = True
     stats = dict(stopped_states=0, starts_continued=0, recoveries=0, post_stop_events=0, starts_checked=0)
     by_state = {}
     viol = {}
